@@ -83,3 +83,25 @@ extern "C" void h_member_growth(void) {
    }
    vp_done();
 }
+// interned words across a pool roll-over: the cursor of the Lexicon's string arena is placed j granules before the end of its 1 MiB pool
+// (needs -fno-access-control), then words of symbolic lengths are interned; the Strings and Identifiers obtained earlier are re-observed
+// (spelling hashed byte by byte) after every later interning
+extern "C" void h_string_rollover(void) {
+   zoo::World* w = new zoo::World; auto& lx = w->lx;
+   static const unsigned lens[] = { 1, 7, 8, 9, 16, 24, 25 };
+   static const char8_t text[] = u8"abcdefghijklmnopqrstuvwxyzABCDEFGHIJKLMNOPQRSTUVWXYZ";
+   Tracker t; const ipr::String* s[4]; unsigned len[4];
+   len[0] = lens[vp_pick(7)];
+   s[0] = &lx.get_string(util::word_view(text, len[0])); t.node<ipr::String>(*s[0]); t.node<ipr::Identifier>(lx.get_identifier(*s[0]));
+   unsigned j = vp_pick(5);
+   auto& ar = lx.strings.strings;
+   ar.next_header = ar.mem->storage + (util::string::arena::bufsz - j);
+   for (int i = 1; i < 4; ++i) {
+      len[i] = lens[vp_pick(7)];
+      s[i] = &lx.get_string(util::word_view(text + 3 * i, len[i]));
+      if (i == 1) { t.node<ipr::String>(*s[1]); t.node<ipr::Identifier>(lx.get_identifier(*s[1])); t.snapshot(); }
+      else t.recheck(20);
+      for (int q = 0; q <= i; ++q) { bool ok = s[q]->characters().size() == len[q]; for (unsigned k = 0; ok && k < len[q]; ++k) ok = s[q]->characters()[k] == text[3 * q + k]; vp_assert(ok, 21); }
+   }
+   vp_done();
+}
